@@ -1320,8 +1320,11 @@ where
 
         // Compute the joint randomness.
         let (joint_rand_seed, joint_rand_part, joint_rands) = if self.typ.joint_rand_len() > 0 {
+            let joint_rand_blind = msg.joint_rand_blind().ok_or_else(|| {
+                VdafError::Uncategorized("input share is missing the joint randomness blind".into())
+            })?;
             let mut joint_rand_part_xof = P::init(
-                msg.joint_rand_blind().as_ref().unwrap().as_ref(),
+                joint_rand_blind.as_ref(),
                 &[&self.domain_separation_tag(DST_JOINT_RAND_PART), ctx],
             );
             joint_rand_part_xof.update(&[agg_id]);
@@ -1368,6 +1371,14 @@ where
         } else {
             (None, None, Vec::new())
         };
+
+        if proofs_share.len() != self.typ.proof_len() * self.num_proofs() {
+            return Err(VdafError::Uncategorized(format!(
+                "unexpected proofs share length: got {}; want {}",
+                proofs_share.len(),
+                self.typ.proof_len() * self.num_proofs(),
+            )));
+        }
 
         // Run the query-generation algorithm.
         let query_rands = self.derive_query_rands(verify_key, ctx, nonce);
